@@ -288,7 +288,9 @@ def _render(classes: list[dict], postponed: bool) -> str:
 def st_chain(ctx: Ctx):
     ann = CF.st_annotation(3, late_enum=True)
     fname = st.sampled_from(["f", "g", "h", "x"])
-    fld = st.fixed_dictionaries({"name": fname, "ann": ann})
+    # (a field option is no part of the verdict: every fifth field is `init=False`)
+    fld = st.tuples(fname, ann, st.sampled_from([False, False, False, False, True])).map(
+        lambda t: {"name": t[0], "ann": t[1], **({"flags": {"init": False}} if t[2] else {})})
 
     def mk(fields_per_class: list[list[dict]]) -> dict:
         classes = []
